@@ -11,6 +11,7 @@ CONSTANTS
   FixFirstRep = FALSE
   FixShort = FALSE
   FixNilReq = FALSE
+  FixBadReq = FALSE
 VIEW view
 INVARIANTS TypeOK OwnIndexOnly Correct
 CHECK_DEADLOCK FALSE
